@@ -255,7 +255,14 @@ def run_world(name, repo="/repo", tier="quick", seed=0, timeout=600):
                 continue
             if c.get("fn") in shadow:
                 continue   # duplicate of a function decided in the total-reading world
-            if c["kind"] == "violation":
+            if c["kind"] == "violation" and _closure_in_body(c.get("fn"), meta, text):
+                # D16: Verus does not see through closures handed to combinators (`x.map(|v| ..)`, `map_err`, `and_then`, ...):
+                # a body written that way can be correct and still fail to verify.  Such a failure is a limit of the
+                # dialect, not a verdict — undecided for the function's tags (the bounded tier still decides).
+                c["kind"] = "undecided"
+                c["reason"] = "proof failure in a body that hands closures to combinators (outside the dialect, rule D16): not a verdict"
+                all_und.append(c)
+            elif c["kind"] == "violation":
                 this_viol[c["obligation"]] = c
             elif c["kind"] == "canary":
                 all_und.append(dict(msg="canary reported outside canary run", **{k2: c[k2] for k2 in ("fn",)}))
@@ -340,6 +347,18 @@ def run_world(name, repo="/repo", tier="quick", seed=0, timeout=600):
     res["verus"]["total_ms_all_runs"] = total_ms
     res["status"] = "violations" if violations else ("undecided" if res["undecided"] else "ok")
     return res
+
+
+_CLOSURE_ARG = re.compile(r"\.\s*(map|map_err|and_then|or_else|unwrap_or_else|map_or|map_or_else|filter|filter_map|for_each|fold|then|is_some_and|is_ok_and|get_or_insert_with|retain|position|any|all|take_while|skip_while|inspect|zip|flat_map)\s*\(\s*(move\s*)?\|")
+
+
+def _closure_in_body(fid, meta, text):
+    """True if the emitted body of extracted function `fid` passes a closure to a combinator."""
+    if not fid:
+        return False
+    lines = text.split("\n")
+    body = "\n".join(lines[i] for i, m in enumerate(meta["linemap"]) if i < len(lines) and m.get("fn") == fid and m.get("part") == "body")
+    return bool(_CLOSURE_ARG.search(body))
 
 
 def scan_trusted(text):
